@@ -257,6 +257,37 @@ def pattern_case(i):
     return out
 
 
+def unseeded_copies_independence():
+    """UNSEEDED sampling (seed=None) draws fresh entropy wherever it happens: the noise of two outputs that were given the same
+    error-model OBJECT, of two predictive models built from one error model, and of an error model and its deep copy share
+    nothing (identical residuals have probability zero)."""
+    import copy
+    fails = []
+    em = chi.GaussianErrorModel()
+    mech = probes.ProbeMech(2, 2, tag='rsuc')
+    with warnings.catch_warnings():
+        warnings.simplefilter('ignore')
+        pm2 = chi.PredictiveModel(mech, [em, em])
+        par = [1.0, 0.8, 0.3, 0.3]
+        x = np.asarray(pm2.sample(par, TIMES, n_samples=3, seed=None, return_df=False), dtype=float)
+        base = np.asarray(mech.simulate(np.array(par[:2]), np.sort(np.array(TIMES))), dtype=float)
+        r = x - base[:, :, None]
+        if np.allclose(r[0], r[1], rtol=0, atol=1e-12):
+            fails.append(('Independent', 'unseeded_noise_shared_between_outputs', dict(residuals=r[0].flatten()[:3].tolist())))
+        pa, pb = chi.PredictiveModel(mech, [em, chi.GaussianErrorModel()]), chi.PredictiveModel(mech, [em, chi.GaussianErrorModel()])
+        xa = np.asarray(pa.sample(par, TIMES, n_samples=3, seed=None, return_df=False), dtype=float)
+        xb = np.asarray(pb.sample(par, TIMES, n_samples=3, seed=None, return_df=False), dtype=float)
+        if np.allclose(xa[0], xb[0], rtol=0, atol=1e-12):
+            fails.append(('Independent', 'unseeded_noise_shared_between_models_built_from_one_error_model', None))
+        e1, e2 = chi.LogNormalErrorModel(), None
+        e2 = copy.deepcopy(e1)
+        y1 = np.asarray(e1.sample([0.3], [1.0, 2.0, 1.5], n_samples=3, seed=None), dtype=float)
+        y2 = np.asarray(e2.sample([0.3], [1.0, 2.0, 1.5], n_samples=3, seed=None), dtype=float)
+        if np.allclose(y1, y2, rtol=0, atol=1e-12):
+            fails.append(('Independent', 'unseeded_noise_shared_with_a_deep_copy', None))
+    return fails
+
+
 def within_call_independence():
     """"Within one call ... individuals and samples are mutually independent": for samplers that CHOOSE among finitely many
     outcomes (the heterogeneous model draws an individual per sample) independence is visible in the frequency with which
